@@ -498,6 +498,13 @@ func (c *skCtx) block(stmts []ast.Stmt, k string, kLoop string, ind string) stri
 			for i, l := range x.Lhs {
 				if c.trackedLHS(l) {
 					toks = append(toks, c.setTokens(skExpr(l), x.Rhs[i])...)
+				} else if id, ok := l.(*ast.Ident); ok && id.Name != "_" {
+					// locals that carry the outcome of a loop: flags set to a constant, slices built by append
+					if r, ok := x.Rhs[i].(*ast.Ident); ok && (r.Name == "true" || r.Name == "false") {
+						toks = append(toks, "set "+id.Name+" := "+r.Name)
+					} else if ce, ok := x.Rhs[i].(*ast.CallExpr); ok && exprString(ce.Fun) == "append" {
+						toks = append(toks, "set "+id.Name+" := "+skExpr(ce))
+					}
 				}
 			}
 		}
